@@ -70,8 +70,39 @@ func runC06(c *Ctx) {
 				}
 			}
 		}
-		okA := false
-		if delAsset != nil {
+		// maps.DeleteFunc(inner map, func(_, qty) bool { return amountIsZero(qty) }) deletes exactly the zero entries
+		viaDeleteFunc := false
+		if delAsset == nil {
+			for _, ci := range allCalls(fn) {
+				if !strings.HasPrefix(calleeName(ci.Common()), "maps.DeleteFunc") || len(ci.Common().Args) != 2 || !strings.Contains(trace(ci.Common().Args[0]), "next(range(p0))#2") {
+					continue
+				}
+				var pred *ssa.Function
+				switch x := ci.Common().Args[1].(type) {
+				case *ssa.MakeClosure:
+					pred, _ = x.Fn.(*ssa.Function)
+				case *ssa.Function:
+					pred = x
+				}
+				if pred == nil || len(pred.Params) != 2 {
+					continue
+				}
+				exact := true
+				for _, in := range fnInstrs(pred) {
+					if r, ok := in.(*ssa.Return); ok {
+						t := trace(r.Results[0])
+						if !(strings.HasPrefix(t, "amountIsZero") && strings.HasSuffix(t, "(p1)")) {
+							exact = false
+						}
+					}
+				}
+				if exact {
+					delAsset, viaDeleteFunc = ci, true
+				}
+			}
+		}
+		okA := viaDeleteFunc
+		if delAsset != nil && !viaDeleteFunc {
 			v := c.mustPass(fn, []ssa.Instruction{delAsset.(ssa.Instruction)}, func(f string) bool {
 				return strings.HasPrefix(f, "T:call:ledger/common.amountIsZero(")
 			})
@@ -131,12 +162,25 @@ func runC06(c *Ctx) {
 	if fn := c.SSAFunc(rel, "MultiAsset.Add"); fn != nil {
 		key := ssaFuncKey(fn)
 		n := 0
+		// map writes in the receiver's own helper methods (ensurePolicy) count as Add's
+		for _, h := range closureFuncs(fn, 1) {
+			if h == fn || h.Signature.Recv() == nil {
+				continue
+			}
+			for _, in := range fnInstrs(h) {
+				if mu, ok := in.(*ssa.MapUpdate); ok && strings.Contains(trace(mu.Map), "data<p0") {
+					if _, isMM := trace(mu.Value), true; isMM && strings.Contains(trace(mu.Value), "makemap") {
+						n++
+					}
+				}
+			}
+		}
 		for _, in := range fnInstrs(fn) {
 			mu, ok := in.(*ssa.MapUpdate)
 			if !ok {
 				continue
 			}
-			mt := trace(mu.Map)
+			mt := traceIP(fn, mu.Map)
 			if !strings.Contains(mt, "data<p0") {
 				c.Bad("add-owns-its-storage", key+":writes:"+shortArg(mt), mu.Pos(), "Add writes into %s, which is not the receiver's storage", mt)
 				continue
@@ -199,9 +243,11 @@ func runC06(c *Ctx) {
 	if fn := c.SSAFunc(rel, "MultiAsset.Compare"); fn != nil {
 		key := ssaFuncKey(fn)
 		nEq := 0
-		for _, ci := range allCalls(fn) {
-			if strings.HasSuffix(calleeName(ci.Common()), ".amountsEqual") {
-				nEq++
+		for _, h := range closureFuncs(fn, 1) {
+			for _, ci := range allCalls(h) {
+				if strings.Contains(calleeName(ci.Common()), ".amountsEqual") {
+					nEq++
+				}
 			}
 		}
 		c.Check(nEq >= 1, "compare-zero-insensitive", key+":amountsEqual", fn.Pos(), "quantities are compared with amountsEqual", "Compare does not compare quantities through amountsEqual")
@@ -241,10 +287,12 @@ func runC06(c *Ctx) {
 		c.Check(nU >= 1 && okAll, "compare-zero-insensitive", key+":skips-zeros", fn.Pos(), "normalize keeps exactly the non-zero quantities", "normalize keeps zero quantities (or drops non-zero ones)")
 		// non-zero entries are always kept: from the F edge every path reaches a MapUpdate
 		copies := false
-		for _, ci := range allCalls(fn) {
-			if bigMethod(ci.Common()) == "Set" {
-				if _, isAlloc := ci.Common().Args[0].(*ssa.Alloc); isAlloc {
-					copies = true
+		for _, h := range closureFuncs(fn, 1) {
+			for _, ci := range allCalls(h) {
+				if bigMethod(ci.Common()) == "Set" {
+					if _, isAlloc := ci.Common().Args[0].(*ssa.Alloc); isAlloc {
+						copies = true
+					}
 				}
 			}
 		}
